@@ -241,7 +241,7 @@ def mean_facts(chk):
     return out
 
 
-def same_name_arguments(chk, rule, rel, caller_q, callee_q, what):
+def same_name_arguments(chk, rule, rel, caller_q, callee_q, what, strict=False):
     """Argument discipline between a wrapper and the function it delegates to: every argument of the call that is a plain name
     equal to one of the callee's parameter names must be bound to *that* parameter (positionally or by keyword), and every
     parameter the two functions share is handed on.  Swapped positional arguments of the same type compile and run."""
@@ -269,6 +269,13 @@ def same_name_arguments(chk, rule, rel, caller_q, callee_q, what):
         for p_ in sorted(shared):
             if p_ not in bound:
                 problems.append(f"`{p_}` is not handed on")
+            elif strict:
+                # the callee gets the caller's own argument, not something derived from it (a filtered copy, a sorted copy, ...)
+                from .canon import expand_locals as _xl
+                got = _xl(bound[p_], caller, stop=(p_,))
+                rebound = any(isinstance(x, _ast.Name) and x.id == p_ and isinstance(x.ctx, (_ast.Store, _ast.Del)) for x in _ast.walk(caller))
+                if norm(got) != p_ or rebound:
+                    problems.append(f"`{p_}` of the callee receives {norm(got)[:60]}, not the caller's `{p_}`")
     chk.ob(rule, f"{rel}:{caller_q}", f"arguments-reach-their-namesakes[{short}]", bool(calls) and not problems,
            f"{what}: each option of {caller_q} is passed to the parameter of {callee_q} with the same name", node=calls[0] if calls else caller,
            strength="N", problems=problems, calls=len(calls))
@@ -311,3 +318,150 @@ def adjacent_grouping(node):
             if not sorted_first:
                 out.append(c)
     return out
+
+
+def unvalidated_cache(fd, st, target, recv, module_names):
+    """A store into self is harmless only as a *validated* cache: it sits under a test that compares (== / !=), against the
+    stored key, every input the cached value is computed from -- every attribute of self and every name defined outside the
+    guarded block that the block reads.  Returns None when that is the case, else what is missing.  A sample array can never be
+    a validated input (the same object may hold other numbers at the next call)."""
+    import builtins
+    from .astutil import ancestors
+    guard = next((a for a in ancestors(st) if isinstance(a, ast.If)), None)
+    if guard is None or not any(st is n_ for b in guard.body for n_ in ast.walk(b)):
+        return "not under a test that validates it"
+    key_txt = set()
+    for c in ast.walk(guard.test):
+        if isinstance(c, ast.Compare) and all(isinstance(o, (ast.Eq, ast.NotEq)) for o in c.ops):
+            for side in [c.left] + list(c.comparators):
+                for n_ in ast.walk(side):
+                    if isinstance(n_, (ast.Name, ast.Attribute)):
+                        key_txt.add(norm(n_))
+    assigned = {n_.id for b in guard.body for n_ in ast.walk(b) if isinstance(n_, ast.Name) and isinstance(n_.ctx, ast.Store)}
+    params = {a.arg for a in fd.args.posonlyargs + fd.args.args + fd.args.kwonlyargs} - {recv}
+    cache_attr = norm(target).split("[")[0]
+    missing = []
+    for b in guard.body:
+        for n_ in ast.walk(b):
+            if isinstance(n_, ast.Name) and isinstance(n_.ctx, ast.Load):
+                if n_.id in assigned or n_.id == recv or n_.id in module_names or hasattr(builtins, n_.id) or n_.id in ("np", "math", "warnings"):
+                    continue
+                if n_.id in params:
+                    missing.append(f"parameter {n_.id} (an argument cannot be validated by a stored key)")
+                elif n_.id not in key_txt:
+                    missing.append(n_.id)
+            elif isinstance(n_, ast.Attribute) and isinstance(n_.ctx, ast.Load) and norm(n_).startswith(recv + "."):
+                from .core import norm as _n
+                par = getattr(n_, "_parent", None)
+                if isinstance(par, ast.Attribute):
+                    continue  # a longer chain is looked at instead
+                txt = norm(n_)
+                if txt == cache_attr or txt.startswith(cache_attr + "."):
+                    continue
+                if isinstance(par, ast.Call) and par.func is n_:
+                    missing.append(f"{txt}(...) (a method's result cannot be validated by a stored key)")
+                elif txt not in key_txt:
+                    missing.append(txt)
+            elif isinstance(n_, ast.Call) and norm(n_.func) == "getattr" and n_.args and norm(n_.args[0]) == recv:
+                missing.append(norm(n_)[:40])
+    if missing:
+        return "the value depends on " + ", ".join(sorted(set(missing))[:4]) + ", which the guard does not compare with the stored key"
+    return None
+
+
+
+_MUTATORS = {"append", "extend", "insert", "pop", "popitem", "clear", "update", "setdefault", "add", "discard", "remove", "sort",
+             "reverse", "__setitem__", "move_to_end"}
+
+
+def state_problems(module_tree, q, fd):
+    """what makes a call of fd depend on earlier calls: stores into self / cls (a validated cache excepted), into module-level
+    objects, global / nonlocal declarations, mutable defaults.  -> [text]"""
+    from .astutil import walk_local
+    module_names, module_mutables = set(), set()
+    for st in module_tree.body:
+        if isinstance(st, (ast.Assign, ast.AnnAssign)):
+            tg = st.targets if isinstance(st, ast.Assign) else [st.target]
+            for t in tg:
+                if isinstance(t, ast.Name):
+                    module_names.add(t.id)
+                    v = st.value
+                    if isinstance(v, (ast.List, ast.Dict, ast.Set, ast.ListComp, ast.DictComp, ast.SetComp)) or \
+                            (isinstance(v, ast.Call) and norm(v.func).split(".")[-1] in ("dict", "list", "set", "defaultdict", "OrderedDict",
+                                                                                      "WeakKeyDictionary", "WeakValueDictionary", "deque")):
+                        module_mutables.add(t.id)
+        elif isinstance(st, ast.ClassDef):
+            module_names.add(st.name)
+    local_names = {a.arg for a in fd.args.posonlyargs + fd.args.args + fd.args.kwonlyargs} | \
+        {x.id for x in walk_local(fd) if isinstance(x, ast.Name) and isinstance(x.ctx, ast.Store)}
+    first = fd.args.args[0].arg if ("." in q and fd.args.args) else None
+    recv = first if first in ("self", "cls") else None
+    problems = []
+    for d in list(fd.args.defaults) + [k for k in fd.args.kw_defaults if k is not None]:
+        if isinstance(d, (ast.List, ast.Dict, ast.Set, ast.ListComp, ast.DictComp, ast.SetComp)) or \
+                (isinstance(d, ast.Call) and norm(d.func) in ("dict", "list", "set", "defaultdict", "OrderedDict", "collections.defaultdict")):
+            # (a mutable default that is only read is the repo's idiom for "no options"; one that is written is state)
+            nm = next((a.arg for a, dd in zip(reversed(fd.args.args), reversed(fd.args.defaults)) if dd is d), None) or \
+                next((a.arg for a, dd in zip(fd.args.kwonlyargs, fd.args.kw_defaults) if dd is d), None)
+            written = nm is not None and any(
+                (isinstance(x, (ast.Subscript, ast.Attribute)) and isinstance(x.ctx, (ast.Store, ast.Del)) and _root_name(x) == nm) or
+                (isinstance(x, ast.Call) and isinstance(x.func, ast.Attribute) and _root_name(x.func.value) == nm and x.func.attr in _MUTATORS)
+                for x in walk_local(fd))
+            if written or nm is None:
+                problems.append(f"mutable default {norm(d)[:40]} that is written (line {d.lineno})")
+    for nd in walk_local(fd):
+        if isinstance(nd, (ast.Global, ast.Nonlocal)):
+            problems.append(f"{type(nd).__name__.lower()} {', '.join(nd.names)} (line {nd.lineno})")
+        tg = []
+        if isinstance(nd, ast.Assign):
+            tg = nd.targets
+        elif isinstance(nd, (ast.AugAssign, ast.AnnAssign)):
+            tg = [nd.target]
+        elif isinstance(nd, ast.Delete):
+            tg = nd.targets
+        for t in tg:
+            for sub in ([t] if not isinstance(t, (ast.Tuple, ast.List)) else t.elts):
+                root = sub
+                while isinstance(root, (ast.Attribute, ast.Subscript)):
+                    root = root.value
+                if recv and isinstance(sub, (ast.Attribute, ast.Subscript)) and isinstance(root, ast.Name) and root.id == recv:
+                    why = unvalidated_cache(fd, nd, sub, recv, module_names)
+                    if why:
+                        problems.append(f"stores {norm(sub)[:50]} (line {nd.lineno}): {why}")
+                elif isinstance(sub, (ast.Attribute, ast.Subscript)) and isinstance(root, ast.Name) and root.id in module_names \
+                        and root.id not in local_names:
+                    problems.append(f"stores {norm(sub)[:50]}, rooted at a module-level name (line {nd.lineno})")
+        if isinstance(nd, ast.Call):
+            f = norm(nd.func)
+            if f in ("setattr", "object.__setattr__", "delattr") and nd.args and recv and norm(nd.args[0]) == recv:
+                problems.append(f"{f}({recv}, ...) (line {nd.lineno})")
+            if recv and f in (f"{recv}.__dict__.update", f"{recv}.__dict__.setdefault", f"vars({recv}).update", f"{recv}.__dict__.pop"):
+                problems.append(f"{f}(...) (line {nd.lineno})")
+            if isinstance(nd.func, ast.Attribute) and nd.func.attr in _MUTATORS:
+                r_ = _root_name(nd.func.value)
+                if r_ in module_mutables and r_ not in local_names:
+                    problems.append(f"{f}(...) mutates a module-level container (line {nd.lineno})")
+                elif recv and r_ == recv and isinstance(nd.func.value, (ast.Attribute, ast.Subscript)):
+                    problems.append(f"{f}(...) mutates an attribute of {recv} (line {nd.lineno})")
+    return problems
+
+
+def _root_name(x):
+    while isinstance(x, (ast.Attribute, ast.Subscript)):
+        x = x.value
+    return x.id if isinstance(x, ast.Name) else None
+
+
+def keeps_no_state(chk, rule, rel, quals, why):
+    """the functions a rule reads as *value* functions compute their value from their arguments and the object's configuration:
+    they do not remember anything between calls (see state_problems)"""
+    m = chk.idx.module(rel)
+    for q in quals:
+        if not chk.idx.has_func(rel, q):
+            continue
+        chk.fn(rel, q)  # (records R0 for it: the body is what the name runs -- a cache decorator is state, too)
+        fd = chk.idx.func(rel, q)
+        pr = state_problems(m.tree, q, fd)
+        chk.ob(rule, f"{rel}:{q}", "keeps-no-state", not pr,
+               why + ": nothing is stored into self or a module-level object (a cache validated against every input excepted), no "
+               "global declaration, no written mutable default", node=fd, strength="N", **({"problems": pr} if pr else {}))
